@@ -73,12 +73,12 @@ contract('IOManager.connect',
                  'auth_callback': 'opt[opaque:AuthCallback]', 'adb_info': 'obj:AdbInfo'},
          variants=[{'banner': 'bytes'}, {'banner': 'bytearray'}],
          returns='tuple[bool,int]',
-         props=['C05', 'C12', 'C06', 'C11'],
+         props=['C05', 'C12', 'C06', 'C11', 'C13'],
          requires=[NOLOCK],
          modifies=IO_MOD + ['G.rpos', 'G.di', 'G.topen', 'G.session', 'G.dev', 'G.nsign', 'G.cb_calls', 'self._packet_store._dict',
                             'adb_info.transport_timeout_s'],
-         ensures=[('C05', 'reports-success', 'result[0] == True'),
-                  ('C05', 'last-reply-is-CNXN', 'D_cmd({0}, G.di[{0}] - 1) == CNXN and G.di[{0}] >= {1} + 1'.format(HS, H0)),
+         ensures=[('C05,C13', 'reports-success', 'result[0] == True'),
+                  ('C05,C13', 'last-reply-is-CNXN', 'D_cmd({0}, G.di[{0}] - 1) == CNXN and G.di[{0}] >= {1} + 1'.format(HS, H0)),
                   ('C05', 'adopts-maxdata-of-that-CNXN', 'result[1] == D_a1({0}, G.di[{0}] - 1)'.format(HS)),
                   ('C05', 'one-signature-per-AUTH-reply', 'G.nsign - old(G.nsign) <= G.di[{0}] - {1} - 1 and G.nsign >= old(G.nsign)'.format(HS, H0)),
                   ('C05', 'signs-stop-at-first-CNXN',
@@ -191,22 +191,28 @@ contract('AdbDevice.connect',
 
 OPEN_DUR = 'implies(not isnone(result.transport_timeout_s), True)'
 
+from contracts.iomanager import R as _R, T as _T, TNN as _TNN, CPU as _CPU      # noqa: E402
+# C11 at the stream level: one send is bounded by 2(R+T), one read by 3R+2T (contracts of IOManager.send / read), computation time aside
+DUR_OKAY = ('C11', 'duration', 'implies(%s, G.now - old(G.now) <= 2 * (%s + %s) + %s)' % (_TNN, _R, _T, _CPU))
+DUR_READ_UNTIL = ('C11', 'duration', 'implies(%s, G.now - old(G.now) <= 5 * %s + 4 * %s + %s)' % (_TNN, _R, _T, _CPU))
+DUR_CLSE = ('C11', 'duration', 'implies(%s, G.now - old(G.now) <= 7 * %s + 6 * %s + %s)' % (_TNN, _R, _T, _CPU))
+
 contract('AdbDevice._okay',
          real=dev('_okay'),
          params={'self': 'obj:AdbDevice', 'adb_info': 'obj:AdbInfo'},
-         props=['C04', 'C01', 'C12'],
+         props=['C04', 'C01', 'C12', 'C11'],
          requires=STREAM_OK[:1] + [NOLOCK],
          modifies=IO_MOD,
          ensures=[('C04', 'one-OKAY-with-local-then-remote-id', "G.peer_rx == old(G.peer_rx) + frame(OKAY, adb_info.local_id, adb_info.remote_id, b'')"),
-                  RELEASED, MONO_IO],
-         raises={'struct.error': [('C04', 'nothing-written', 'G.peer_rx == old(G.peer_rx)'), RELEASED, MONO_IO], 'AdbTimeoutError': [RELEASED, MONO_IO],
-                 '*': [RELEASED, MONO_IO]})
+                  RELEASED, MONO_IO, DUR_OKAY],
+         raises={'struct.error': [('C04', 'nothing-written', 'G.peer_rx == old(G.peer_rx)'), RELEASED, MONO_IO, DUR_OKAY], 'AdbTimeoutError': [RELEASED, MONO_IO, DUR_OKAY],
+                 '*': [RELEASED, MONO_IO, DUR_OKAY]})
 
 contract('AdbDevice._read_until',
          real=dev('_read_until'),
          params={'self': 'obj:AdbDevice', 'expected_cmds': 'cmdset', 'adb_info': 'obj:AdbInfo'},
          returns='tuple[bytes,bytes]',
-         props=['C04', 'C01', 'C12', 'C08', 'C10'],
+         props=['C04', 'C01', 'C12', 'C08', 'C10', 'C11'],
          requires=STREAM_OK + [NOLOCK],
          modifies=IO_MOD + RD_MOD,
          ghost_exit=[('G.sgot', 'store(G.sgot, {0}, G.sgot[{0}] + ite(result[0] == WRTE, len(result[1]), 0))'.format(LID))],
@@ -217,20 +223,20 @@ contract('AdbDevice._read_until',
                   ('C01,C04,C10', 'command-is-expected', 'result[0] in expected_cmds'),
                   ('C04', 'one-OKAY-per-delivered-WRTE-none-otherwise',
                    "G.peer_rx == old(G.peer_rx) + ite(result[0] == WRTE, frame(OKAY, adb_info.local_id, adb_info.remote_id, b''), b'')"),
-                  RELEASED, MONO],
-         raises=exc_all([RELEASED, MONO]))
+                  RELEASED, MONO, DUR_READ_UNTIL],
+         raises=exc_all([RELEASED, MONO, DUR_READ_UNTIL]))
 
 contract('AdbDevice._clse',
          real=dev('_clse'),
          params={'self': 'obj:AdbDevice', 'adb_info': 'obj:AdbInfo'},
-         props=['C04', 'C12', 'C08', 'C09'],
+         props=['C04', 'C12', 'C08', 'C09', 'C11'],
          requires=STREAM_OK + [NOLOCK],
          modifies=IO_MOD + RD_MOD,
          ensures=[('C04', 'exactly-one-CLSE-sent', "G.peer_rx == old(G.peer_rx) + frame(CLSE, adb_info.local_id, adb_info.remote_id, b'')"),
                   ('C04', 'device-CLSE-received', 'D_cmd({0}, {1}) == CLSE and G.di == store(old(G.di), {0}, {1} + 1)'.format(LID, DI0)),
                   ('C08,C09', 'no-sync-input-consumed', 'G.sgot == old(G.sgot)'),
-                  RELEASED, MONO],
-         raises=exc_all([RELEASED, MONO]))
+                  RELEASED, MONO, DUR_CLSE],
+         raises=exc_all([RELEASED, MONO, DUR_CLSE]))
 
 NEXTID = 'nextid(old(self._local_id))'
 OPEN_MOD = IO_MOD + RD_MOD + ['self._local_id', 'G.spos', 'G.sync_out', 'G.sync_flushed', 'G.pushed', 'G.nsync']
@@ -249,8 +255,8 @@ contract('AdbDevice._open',
                    'G.sync_out == store(old(G.sync_out), self._local_id, b"") and G.sync_flushed == store(old(G.sync_flushed), self._local_id, b"") '
                    'and G.pushed == store(old(G.pushed), self._local_id, b"") and G.nsync == store(old(G.nsync), self._local_id, 0)'),
                   ('C08,C09', 'sync-reader-starts-with-nothing-buffered', 'G.spos == store(old(G.spos), self._local_id, G.sgot[self._local_id]) and G.sgot == old(G.sgot)'),
-                  ('C14', 'next-id-with-wrap', 'self._local_id == %s' % NEXTID),
-                  ('C14', 'id-in-1..2^32-1', 'self._local_id >= 1 and self._local_id <= 2**32 - 1'),
+                  ('C14,C04', 'next-id-with-wrap', 'self._local_id == %s' % NEXTID),
+                  ('C14,C04', 'id-in-1..2^32-1', 'self._local_id >= 1 and self._local_id <= 2**32 - 1'),
                   ('C14,C04', 'stream-uses-that-id', 'same(result.local_id, self._local_id)'),
                   ('C04', 'OPEN-with-fresh-id-arg1-0-NUL-terminated', "G.peer_rx == old(G.peer_rx) + frame(OPEN, self._local_id, 0, destination + b'\\0')"),
                   ('C04', 'remote-id-is-the-one-announced-in-OKAY',
@@ -263,7 +269,7 @@ contract('AdbDevice._open',
                    'ite(result.read_timeout_s < val(self._default_transport_timeout_s), result.read_timeout_s, val(self._default_transport_timeout_s))), '
                    'ite(result.read_timeout_s < val(transport_timeout_s), result.read_timeout_s, val(transport_timeout_s)))'),
                   RELEASED, MONO],
-         raises=exc_all([('C14', 'id-advanced-even-on-failure', 'self._local_id == %s' % NEXTID), RELEASED, MONO]))
+         raises=exc_all([('C14,C04', 'id-advanced-even-on-failure', 'self._local_id == %s' % NEXTID), RELEASED, MONO]))
 
 
 # ======================================================================================================================
